@@ -1,6 +1,7 @@
 from _warnings import warn
 from typing import Sequence
-from numpy import ndarray, array, sort, zeros, take_along_axis, expand_dims, int64
+from numpy import ndarray, array, sort, zeros, take_along_axis, expand_dims
+from numpy import int64, uint64
 
 
 def sample_hdi(sample: ndarray, fraction: float) -> ndarray:
@@ -101,6 +102,10 @@ def sample_hdi(sample: ndarray, fraction: float) -> ndarray:
     if n_samples > L:
         # find the optimal single HDI
         widths = s[L:, :] - s[: n_samples - L, :]
+        if s.dtype == int64:
+            # a difference of sorted int64 values that does not fit in int64 has
+            # wrapped around: read as unsigned, it is the exact width
+            widths = widths.view(uint64)
         i = expand_dims(widths.argmin(axis=0), axis=0)
         hdi[0, :] = take_along_axis(s, i, 0).squeeze()
         hdi[1, :] = take_along_axis(s, i + L, 0).squeeze()
